@@ -181,4 +181,155 @@ theorem spec_parseValueLiteral (c : Bool) : ∀ n, Spec (parseValueLiteral n c) 
       obtain ⟨u, hu, p⟩ := h rfl rfl
       exact ⟨u, (Ate.peeked a).trans hu, p⟩
 
+/-! ### bracketed lists whose print is `start item+ stop` or nothing -/
+
+theorem many_flatMap {α : Type} {f : α → List Tok} {Q : α → Prop} {xs : List α} {mid : List Token}
+    (h : Many (fun x u => tk u = f x ∧ Q x) xs mid) : tk mid = xs.flatMap f ∧ ∀ x ∈ xs, Q x := by
+  induction h with
+  | nil => exact ⟨rfl, fun _ h => by cases h⟩
+  | @cons x xs u us hx _ ih =>
+    refine ⟨by simp [hx.1, ih.1], fun y hy => ?_⟩
+    rcases List.mem_cons.1 hy with rfl | hy
+    · exact hx.2
+    · exact ih.2 y hy
+
+/-- the result of `some`: the consumed tokens are `start item+ stop`, or nothing for the empty list -/
+theorem bracketed_some {α : Type} {f : α → List Tok} {Q : α → Prop} {start stop : Kind} {xs : List α} {a a' : AS}
+    (hv1 : start.valued = false) (hv2 : stop.valued = false)
+    (hb : Bracketed (fun x u => tk u = f x ∧ Q x) start stop xs a a') (hne : a.σ.head.kind = start → xs ≠ []) :
+    ∃ u, Ate a a' u ∧ tk u = (if xs.isEmpty then [] else tP start :: xs.flatMap f ++ [tP stop]) ∧ (∀ x ∈ xs, Q x) ∧
+      (a.σ.head.kind ≠ start → xs = [] ∧ a' = { a with pk := true }) := by
+  rcases hb with ⟨rfl, hk, rfl⟩ | ⟨hk, u, hu, t1, mid, t2, rfl, k1, k2, o1, o2, hm⟩
+  · exact ⟨[], Ate.peeked a, rfl, fun _ h => (by cases h), fun _ => ⟨rfl, rfl⟩⟩
+  · obtain ⟨m1, m2⟩ := many_flatMap hm
+    have hx := hne hk
+    refine ⟨_, hu, ?_, m2, fun h => absurd hk h⟩
+    cases xs with
+    | nil => exact absurd rfl hx
+    | cons x xs => simp [ofToken_punct k1 o1 hv1, ofToken_punct k2 o2 hv2, m1]
+
+/-! ### arguments and directives -/
+
+theorem spec_parseArgument (n : Nat) (c : Bool) :
+    Spec (parseArgument n c) (Eats fun a u => tk u = printArgument a ∧ (c = true → ConstValue a.value)) := by
+  unfold parseArgument
+  refine (Spec.bind spec_peekPos fun pos => Spec.bind spec_parseName fun name =>
+    Spec.bind (spec_punct .colon (by decide) (by decide) rfl) fun _ =>
+    Spec.bind (spec_parseValueLiteral c n) fun v => Spec.pure _).mono ?_
+  rintro x a a'' _ ⟨pos, a1, ⟨rfl, _⟩, name, a2, ⟨u1, h1, p1⟩, _, a3, ⟨u2, h2, p2⟩, v, a4, ⟨u3, h3, p3⟩, rfl, rfl⟩
+  exact ⟨_, (Ate.peeked a).trans (h1.trans (h2.trans h3)), by simp [printArgument, p1, p2, p3.1], p3.2⟩
+
+/-- `Arguments[Const]?` -/
+def PArgs (c : Bool) (as : List Argument) (u : List Token) : Prop :=
+  tk u = printArguments as ∧ (c = true → ∀ a ∈ as, ConstValue a.value)
+
+theorem spec_parseArguments (n : Nat) (c : Bool) : Spec (parseArguments n c) (Eats (PArgs c)) := by
+  unfold parseArguments
+  refine (spec_pSome .parenL .parenR (by decide) (by decide) (by decide) (by decide) n (spec_parseArgument n c)).mono ?_
+  rintro as a a' _ ⟨hb, hne⟩
+  obtain ⟨u, h1, h2, h3, _⟩ := bracketed_some rfl rfl hb hne
+  exact ⟨u, h1, h2, fun hc x hx => h3 x hx hc⟩
+
+/-- `Directive[Const]` -/
+def PDirective (c : Bool) (d : Directive) (u : List Token) : Prop :=
+  tk u = printDirective d ∧ (c = true → ∀ a ∈ d.args, ConstValue a.value)
+
+theorem spec_parseDirective (n : Nat) (c : Bool) : Spec (parseDirective n c) (Eats (PDirective c)) := by
+  unfold parseDirective
+  refine (Spec.bind (spec_punct .at (by decide) (by decide) rfl) fun _ => Spec.bind spec_peekPos fun pos =>
+    Spec.bind spec_parseName fun name => Spec.bind (spec_parseArguments n c) fun args => Spec.pure _).mono ?_
+  rintro x a a'' _ ⟨_, a1, ⟨u1, h1, p1⟩, pos, a2, ⟨rfl, _⟩, name, a3, ⟨u2, h2, p2⟩, args, a4, ⟨u3, h3, p3⟩, rfl, rfl⟩
+  exact ⟨_, h1.trans ((Ate.peeked a1).trans (h2.trans h3)), by simp [printDirective, p1, p2, p3.1], p3.2⟩
+
+theorem spec_directivesLoop {c : Bool} {pd : Prog Directive} (hpd : Spec pd (Eats (PDirective c))) (n : Nat)
+    (acc : List Directive) :
+    Spec (directivesLoop pd n acc) (fun ds a a' => ∃ items used, ds = items.reverse ++ acc ∧
+      Ate a a' used ∧ Many (PDirective c) items used) := by
+  induction n generalizing acc with
+  | zero => exact Spec.of_dead (outOfFuel_dead _)
+  | succ n ih =>
+    unfold directivesLoop
+    refine (Spec.bind spec_peek fun t => Spec.ite
+      (fun _ => Spec.bind spec_hasErr fun e => Spec.ite (fun _ => Spec.pure acc)
+        (fun _ => Spec.bind hpd fun d => ih (d :: acc))) (fun _ => Spec.pure acc)).mono ?_
+    rintro ds a a'' _ ⟨t, a1, ⟨rfl, rfl⟩, ⟨_, e, a2, ⟨rfl, rfl⟩, ⟨he, _⟩ |
+      ⟨_, d, a3, ⟨u, h1, h3⟩, items, used, rfl, h4, h6⟩⟩ | ⟨_, rfl, rfl⟩⟩
+    · cases he
+    · exact ⟨d :: items, u ++ used, by simp, (Ate.peeked a).trans (h1.trans h4), .cons h3 h6⟩
+    · exact ⟨[], [], rfl, Ate.peeked a, .nil⟩
+
+/-- `Directives[Const]?` -/
+def PDirectives (c : Bool) (ds : List Directive) (u : List Token) : Prop :=
+  tk u = printDirectives ds ∧ (c = true → ConstDirectives ds)
+
+theorem spec_parseDirectives (n : Nat) (c : Bool) : Spec (parseDirectives n c) (Eats (PDirectives c)) := by
+  unfold parseDirectives
+  refine (Spec.bind (spec_directivesLoop (spec_parseDirective n c) n []) fun ds => Spec.pure ds.reverse).mono ?_
+  rintro ds a a'' _ ⟨_, a1, ⟨items, used, rfl, h1, hm⟩, rfl, rfl⟩
+  obtain ⟨m1, m2⟩ := many_flatMap (f := printDirective) (Q := fun d => c = true → ∀ a ∈ d.args, ConstValue a.value) hm
+  refine ⟨used, h1, by simpa [printDirectives] using m1, fun hc d hd => ?_⟩
+  exact m2 d (by simpa using hd) hc
+
+/-! ### types and variable definitions -/
+
+theorem spec_parseTypeReference : ∀ n, Spec (parseTypeReference n) (Eats fun ty u => tk u = printType ty)
+  | 0 => Spec.of_dead (outOfFuel_dead _)
+  | n + 1 => by
+    have ih := spec_parseTypeReference n
+    unfold parseTypeReference
+    refine (Spec.bind (spec_skipP .bracketL (by decide) (by decide) rfl) fun b => Spec.ite
+      (fun _ => Spec.bind spec_peekPos fun pos => Spec.bind ih fun elem =>
+        Spec.bind (spec_punct .bracketR (by decide) (by decide) rfl) fun _ =>
+        Spec.bind (spec_skipP .bang (by decide) (by decide) rfl) fun nn => Spec.pure (GType.list elem nn pos))
+      (fun _ => Spec.bind spec_peekPos fun pos => Spec.bind spec_parseName fun name =>
+        Spec.bind (spec_skipP .bang (by decide) (by decide) rfl) fun nn => Spec.pure (GType.named name nn pos))).mono ?_
+    rintro ty a a'' _ ⟨b, a1, hs, ⟨hb, pos, a2, ⟨rfl, _⟩, elem, a3, ⟨u2, h2, p2⟩, _, a4, ⟨u3, h3, p3⟩, nn, a5, hs2, rfl, rfl⟩ |
+      ⟨hb, pos, a2, ⟨rfl, _⟩, name, a3, ⟨u2, h2, p2⟩, nn, a4, hs2, rfl, rfl⟩⟩
+    · rcases hs with ⟨_, _, u1, h1, p1⟩ | ⟨rfl, _⟩
+      · rcases hs2 with ⟨rfl, _, u4, h4, p4⟩ | ⟨rfl, _, rfl⟩
+        · exact ⟨_, h1.trans ((Ate.peeked a1).trans (h2.trans (h3.trans h4))), by simp [printType, bangIf, p1, p2, p3, p4]⟩
+        · exact ⟨_, h1.trans ((Ate.peeked a1).trans (h2.trans (h3.trans (Ate.peeked a4)))),
+            by simp [printType, bangIf, p1, p2, p3]⟩
+      · simp at hb
+    · rcases hs with ⟨rfl, _⟩ | ⟨_, _, rfl⟩
+      · simp at hb
+      · rcases hs2 with ⟨rfl, _, u4, h4, p4⟩ | ⟨rfl, _, rfl⟩
+        · exact ⟨_, (Ate.peeked a).trans ((Ate.peeked _).trans (h2.trans h4)), by simp [printType, bangIf, p2, p4]⟩
+        · exact ⟨_, (Ate.peeked a).trans ((Ate.peeked _).trans (h2.trans (Ate.peeked a3))), by simp [printType, bangIf, p2]⟩
+
+theorem spec_parseVariableDefinition (n : Nat) :
+    Spec (parseVariableDefinition n) (Eats fun v u => tk u = printVarDef v ∧ WFVarDef v) := by
+  unfold parseVariableDefinition
+  refine (Spec.bind spec_peekPos fun pos => Spec.bind spec_parseVariable fun var =>
+    Spec.bind (spec_punct .colon (by decide) (by decide) rfl) fun _ =>
+    Spec.bind (spec_parseTypeReference n) fun ty =>
+    Spec.bind (spec_skipP .equals (by decide) (by decide) rfl) fun b => Spec.ite
+      (fun _ => Spec.bind (spec_parseValueLiteral true n) fun v => Spec.bind (Spec.pure (Option.some v)) fun dv =>
+        Spec.bind (spec_parseDirectives n true) fun dirs => Spec.pure _)
+      (fun _ => Spec.bind (Spec.pure none) fun dv =>
+        Spec.bind (spec_parseDirectives n true) fun dirs => Spec.pure _)).mono ?_
+  rintro x a a'' _ ⟨pos, a1, ⟨rfl, _⟩, var, a2, ⟨u1, h1, p1⟩, _, a3, ⟨u2, h2, p2⟩, ty, a4, ⟨u3, h3, p3⟩, b, a5, hs,
+    ⟨hb, v, a6, ⟨u4, h4, p4⟩, dv, a7, ⟨rfl, rfl⟩, dirs, a8, ⟨u5, h5, p5⟩, rfl, rfl⟩ |
+    ⟨hb, dv, a7, ⟨rfl, rfl⟩, dirs, a8, ⟨u5, h5, p5⟩, rfl, rfl⟩⟩
+  · rcases hs with ⟨_, _, u0, h0, p0⟩ | ⟨rfl, _⟩
+    · refine ⟨_, (Ate.peeked a).trans (h1.trans (h2.trans (h3.trans (h0.trans (h4.trans h5))))),
+        by simp [printVarDef, printDefault, p1, p2, p3, p0, p4.1, p5.1], ⟨fun d hd => ?_, p5.2 rfl⟩⟩
+      cases hd; exact p4.2 rfl
+    · simp at hb
+  · rcases hs with ⟨rfl, _⟩ | ⟨_, _, rfl⟩
+    · simp at hb
+    · exact ⟨_, (Ate.peeked a).trans (h1.trans (h2.trans (h3.trans ((Ate.peeked a4).trans h5)))),
+        by simp [printVarDef, printDefault, p1, p2, p3, p5.1], ⟨fun d hd => (by cases hd), p5.2 rfl⟩⟩
+
+/-- `VariableDefinitions?` -/
+def PVarDefs (vs : List VarDef) (u : List Token) : Prop := tk u = printVarDefs vs ∧ ∀ v ∈ vs, WFVarDef v
+
+theorem spec_parseVariableDefinitions (n : Nat) : Spec (parseVariableDefinitions n) (Eats PVarDefs) := by
+  unfold parseVariableDefinitions
+  refine (spec_pSome .parenL .parenR (by decide) (by decide) (by decide) (by decide) n
+    (spec_parseVariableDefinition n)).mono ?_
+  rintro vs a a' _ ⟨hb, hne⟩
+  obtain ⟨u, h1, h2, h3, _⟩ := bracketed_some rfl rfl hb hne
+  exact ⟨u, h1, h2, h3⟩
+
 end Gql.Parser
